@@ -122,8 +122,11 @@ def sortByKey {α} (l : List (Nat × α)) : List (Nat × α) :=
 
 def absentName : Bytes := "__absent__".toUTF8.data.toList
 
-def celLine (verbose : Bool) (m : Profile) (s : Sprite) (tag : String) (f l : Nat) : String :=
+def celLine (verbose : Bool) (m : Profile) (s : Sprite) (tag : String) (f l0 : Nat) : String :=
   let canRender := s.width.toNat * s.height.toNat ≤ maxRenderPixels
+  -- all three routes build `CelId { frame: f as u16, layer: l as u16 }`: with more than 65536
+  -- layers the layer coordinate wraps, identically on every route
+  let l := l0 % 65536
   match s.cel f l with
   | .ok c =>
       let empty := c.isNone
